@@ -316,6 +316,23 @@ end Aurora.Bmt
 namespace Aurora.Bmt
 variable (H : Bytes → Bytes)
 
+theorem chunkList_eq (seg : Nat) (n a : Nat) (buf : Bytes) :
+    chunkList (2 * seg) n (buf.drop (a * (2 * seg)))
+      = (List.range n).map (fun j => sect seg buf (a + j)) := by
+  induction n generalizing a with
+  | zero => simp [chunkList]
+  | succ n ih =>
+    rw [List.range_succ_eq_map, List.map_cons, List.map_map]
+    simp only [chunkList]
+    congr 1
+    rw [List.drop_drop]
+    have : a * (2 * seg) + 2 * seg = (a + 1) * (2 * seg) := by rw [Nat.add_mul, Nat.one_mul]
+    rw [this, ih (a + 1)]
+    apply List.map_congr_left
+    intro j _
+    simp only [Function.comp]
+    congr 1; omega
+
 theorem Inv_write (seg d : Nat) (h : Hasher) (data b : Bytes) (hs : 0 < seg) (inv : Inv H seg d h data) :
     Inv H seg d (h.write H seg b).1 (data ++ b) := by
   obtain ⟨hpos1, hpos2, hsz, hlt, hfull⟩ := Inv_pos_le H seg d h data hs inv
@@ -354,6 +371,14 @@ theorem Inv_write (seg d : Nat) (h : Hasher) (data b : Bytes) (hs : 0 < seg) (in
     · have : ¬ (h.size + min b.length (maxSize seg d - h.size) = maxSize seg d) := by omega
       rw [if_neg hc, if_neg this]
   · -- leafs
+    have hspawn : (h.write H seg b).1.leafs = h.leafs ++ (List.range ((if min b.length (h.buffer.length - h.size) = h.buffer.length - h.size
+            then (h.size + min b.length (h.buffer.length - h.size)) / (2 * seg) - 1
+            else (h.size + min b.length (h.buffer.length - h.size)) / (2 * seg)) - h.size / (2 * seg))).map
+          (fun j => H (sect seg (copyAt h.buffer h.size b) (h.size / (2 * seg) + j))) := by
+      show h.leafs ++ (chunkList (2 * seg) _ ((copyAt h.buffer h.size b).drop (h.size / (2 * seg) * (2 * seg)))).map H = _
+      rw [chunkList_eq, List.map_map]
+      rfl
+    rw [hspawn]
     show h.leafs ++ (List.range ((if min b.length (h.buffer.length - h.size) = h.buffer.length - h.size
             then (h.size + min b.length (h.buffer.length - h.size)) / (2 * seg) - 1
             else (h.size + min b.length (h.buffer.length - h.size)) / (2 * seg)) - h.size / (2 * seg))).map
